@@ -190,14 +190,19 @@ def main(argv=None):
     violations = []
     known_hits = []
     nonrepro = []
+    from concurrent.futures import ThreadPoolExecutor
+    todo = [(r, c) for r in results for c in r.get('cex', []) if c.get('model') is not None]
+    with ThreadPoolExecutor(max_workers=max(1, min(a.jobs, 16))) as tp:
+        reps = list(tp.map(lambda rc: replay_subprocess(pid, rc[0]['instance'], rc[1]['model']), todo))
+    for (r, c), rp in zip(todo, reps):
+        c['replay'] = rp
     for r in results:
         for c in r.get('cex', []):
             key = '%s::%s' % (r['instance'], c['base'])
             if c.get('model') is None:
                 nonrepro.append((key, 'no model could be produced'))
                 continue
-            rp = replay_subprocess(pid, r['instance'], c['model'])
-            c['replay'] = rp
+            rp = c['replay']
             if rp.get('reproduced'):
                 hit = [k for k in known if fnmatch.fnmatchcase(key, k['match'])]
                 if hit:
